@@ -119,6 +119,10 @@ func (s *Session) Start(name string) {
 // Done reports whether both parties have finished.
 func (s *Session) Done() bool { return s.ServerTask.Done() && s.ClientTask.Done() }
 
+// RequestBytes frames op's request (also used by the HTTP worlds, which post
+// the same bytes as the request body).
+func RequestBytes(op *Op) []byte { return (&Session{}).requestBytes(op) }
+
 func (s *Session) requestBytes(op *Op) []byte {
 	if op.Kind == "raw" {
 		return op.Raw
